@@ -50,6 +50,13 @@ def charset(rng):
     return rng.choice(['bogus', 'x' * 300, '\x00', '', '"', 'utf-8;', ' hex ', 'HEX', 'Zlib'])
 
 
+# references whose host holds a character that turns into / ? # @ : under NFKC: the standard library's URL splitting
+# refuses them with ValueError (while they look like perfectly likely links), written raw and as script escapes
+NFKC_REFS = ['http://cdn\uff0fexample.com/x.js', '//a\uff03b/x', 'http://a\u2100b/', 'http://a\uff20b/', 'http://a\uff1ab/y.png', 'http://a\uff1fb',
+             '//cdn\u2488a.test/lib.js', 'https://x\ufe13y/z.css']
+NFKC_ESCAPED = [r.encode('unicode_escape').decode('ascii') for r in NFKC_REFS]
+
+
 WALKER_ATTRS = ['codebase', 'archive', 'classid', 'code', 'data', 'type', 'src', 'href', 'rel', 'valuetype', 'value', 'name', 'property',
                 'content', 'http-equiv', 'style', 'srcset', 'onclick', 'action', 'background', 'lowsrc', 'usemap', 'longdesc', 'cite', 'profile']
 WALKER_VALUES = ['type', 'data', 'href', 'src', 'codebase', 'foo', 'html', 'css', 'javascript', 'media', 'sitemap', 'file', 'directory', 'ref', 'REF',
@@ -70,7 +77,7 @@ def html_doc(rng, links):
     if rng.random() < 0.3:
         parts.append('<style>a { background: url(%s) } @import "%s";</style>' % (rng.choice(["'/c1.png'", '/c2.png', 'http://[', '"\\', '\\0']), rng.choice(['/i.css', 'x:', ''])))
     if rng.random() < 0.3:
-        parts.append('<script>var u = "%s"; location = \'/js%d.html\';</script>' % (rng.choice(['http://a.test/js1', '\\u0000', 'http:\\/\\/a.test\\/esc', '%zz']), rng.randint(0, 3)))
+        parts.append('<script>var u = "%s"; location = \'/js%d.html\';</script>' % (rng.choice(['http://a.test/js1', '\\u0000', 'http:\\/\\/a.test\\/esc', '%zz'] + NFKC_REFS[:2] + NFKC_ESCAPED[:2]), rng.randint(0, 3)))
     parts.append('</head><body>')
     for l in links:
         parts.append('<a href="%s">x</a>' % l)
@@ -80,7 +87,7 @@ def html_doc(rng, links):
         val = rng.choice(['/x', 'http://[', 'http://a.test:99999/', 'http://a.test:-1/', 'http://%zz/', '//', '#', '?', 'mailto:x',
                           'javascript:alert(1)', 'http://a.test/' + 'a' * 3000, '\\', 'http://a.test/\x00', 'http://a.test/%0D%0A',
                           'ftp://a.test/%2e%2e/', 'http://ä.test/', 'http://xn--/', 'http://a..b/', 'http://[::1]:80:80/', 'data:,x',
-                          'http://user:pa:ss@a.test/', 'http://a.test/?q=\udc80', ' /sp ', '/a b', 'http:///x', 'url(', '1x, 2x', '/s1.png 1x, /s2.png 2x'])
+                          'http://user:pa:ss@a.test/', 'http://a.test/?q=\udc80', ' /sp ', '/a b', 'http:///x', 'url(', '1x, 2x', '/s1.png 1x, /s2.png 2x'] + NFKC_REFS)
         parts.append('<%s %s="%s">' % (tag, attr, val))
     for _ in range(rng.randint(0, 3)):
         # elements with SEVERAL attributes, over every attribute name the element walker reads, with values that are
@@ -112,21 +119,21 @@ def html_doc(rng, links):
 def css_doc(rng):
     d = ('@charset "%s"; @import url(%s); a { background: url("%s") } b{b:url(%s)}' % (
         charset(rng), rng.choice(['/i.css', "'x'", 'http://[', '']),
-        rng.choice(['/bg.png', '\\', 'http://a.test:x/', '\\000041']), rng.choice(['/q.png', ')', '("']))).encode('utf-8', 'replace')
+        rng.choice(['/bg.png', '\\', 'http://a.test:x/', '\\000041'] + NFKC_REFS), rng.choice(['/q.png', ')', '("']))).encode('utf-8', 'replace')
     return mutate(rng, d) if rng.random() < 0.5 else d
 
 
 def js_doc(rng):
     d = ('var a = "%s"; var b = \'%s\'; x("/j%d.html"); //%s\n' % (
-        rng.choice(['http://a.test/j1', 'http:\\/\\/a.test\\/j2', '\\u00', '\\x', '/' * 50]),
-        rng.choice(['/j3.png', '\\', 'http://[', '%']), rng.randint(0, 3), rng.choice(['', '\x00', '\udcff']))).encode('utf-8', 'surrogatepass')
+        rng.choice(['http://a.test/j1', 'http:\\/\\/a.test\\/j2', '\\u00', '\\x', '/' * 50] + NFKC_REFS + NFKC_ESCAPED),
+        rng.choice(['/j3.png', '\\', 'http://[', '%'] + NFKC_REFS[:3] + NFKC_ESCAPED[:3]), rng.randint(0, 3), rng.choice(['', '\x00', '\udcff']))).encode('utf-8', 'surrogatepass')
     return mutate(rng, d) if rng.random() < 0.5 else d
 
 
 def sitemap_doc(rng):
     d = ('<?xml version="1.0" encoding="%s"?><urlset xmlns="http://www.sitemaps.org/schemas/sitemap/0.9">'
          '<url><loc>%s</loc></url><url><loc>%s</loc></url></urlset>' % (
-             charset(rng), rng.choice(['http://a.test/s1', 'http://[', '', '&bad;', '\x00']),
+             charset(rng), rng.choice(['http://a.test/s1', 'http://[', '', '&bad;', '\x00'] + NFKC_REFS[:3]),
              rng.choice(['/s2', 'http://a.test/s3', ']]>']))).encode('utf-8', 'replace')
     r = rng.random()
     if r < 0.3:
@@ -180,7 +187,7 @@ def http_response(rng, body=None, ctype=None, location=None):
         hdrs.append(('Content-Type', ctype))
     if location is not None or status in (301, 302, 307):
         hdrs.append(('Location', location if location is not None else rng.choice(
-            ['/next', 'http://[', '', 'http://a.test:99999/', 'http://a.test:65536/x', '//a.test:65536/x', 'http://a.test:65535/x', 'http://a.test:0/x', 'http://a.test:00080/x', '//', '\xff', 'http://a.test/%', 'x' * 5000, '/a\r\n b', 'http://a.test/\udc80'.encode('utf-8', 'surrogatepass').decode('latin-1')])))
+            ['/next', 'http://[', '', NFKC_REFS[0], NFKC_REFS[1], 'http://a.test:99999/', 'http://a.test:65536/x', '//a.test:65536/x', 'http://a.test:65535/x', 'http://a.test:0/x', 'http://a.test:00080/x', '//', '\xff', 'http://a.test/%', 'x' * 5000, '/a\r\n b', 'http://a.test/\udc80'.encode('utf-8', 'surrogatepass').decode('latin-1')])))
     coding = rng.choice([None, None, None, 'gzip', 'deflate', 'x-gzip', 'bogus', 'gzip, deflate'])
     payload = body
     if coding in ('gzip', 'x-gzip', 'gzip, deflate'):
@@ -218,7 +225,7 @@ def http_response(rng, body=None, ctype=None, location=None):
         close = True
     for _ in range(rng.randint(0, 3)):
         hdrs.append(rng.choice([('Set-Cookie', rng.choice(['a=b', 'a=b; Domain=.test; Path=/; Expires=garbage', '=', '\xff=\xfe', 'a=' + 'b' * 5000, 'a=b; Max-Age=x'])),
-                                ('Refresh', rng.choice(['0; url=/refresh', 'x', '5', '0;url=http://['])),
+                                ('Refresh', rng.choice(['0; url=/refresh', 'x', '5', '0;url=http://[', '0;url=' + NFKC_REFS[1]])),
                                 ('Connection', rng.choice(['close', 'keep-alive', 'x'])), ('X-Fold', 'a\r\n b'), ('Link', '</l>; rel=x'),
                                 ('Last-Modified', rng.choice(['garbage', 'Mon, 01 Jan 2001 00:00:00 GMT', '99999999999',
                                                               # dates that PARSE, with a field no calendar holds
@@ -254,6 +261,13 @@ def http_response(rng, body=None, ctype=None, location=None):
         raw = b'HTTP/1.1 200 OK\r\n' + b'X: ' + b'a' * 70000 + b'\r\n\r\n'
     elif r < 0.40:
         raw = b'HTTP/1.1 200 OK\r\n' + b''.join(b'H%d: v\r\n' % i for i in range(5000)) + b'\r\n'
+    if rng.random() < 0.08:
+        # interim responses in front of the answer: one, a few, or a run far longer than any stack is deep (each block is
+        # tiny, so no per-block limit applies)
+        code, phrase = rng.choice([(100, b' Continue'), (102, b' Processing'), (103, b' Early Hints'), (100, b''), (101, b' Switching Protocols'), (199, b' x')])
+        e = rng.choice([b'\r\n', b'\r\n', b'\n'])
+        block = b'HTTP/1.1 %d%s' % (code, phrase) + e + (b'Link: </s.css>; rel=preload' + e if code == 103 and rng.random() < 0.5 else b'') + e
+        raw = block * rng.choice([1, 2, 5, 400, 1500, 6000]) + raw
     if rng.random() < 0.3:
         close = True
     return raw, close
